@@ -25,9 +25,6 @@ static inline bool gv_recognise(const struct gv_str *s)
   bool neg = (g != 0);
   double mag;
   __CPROVER_assume(mag >= 0);      /* may be +inf: atof returns HUGE_VAL for a literal beyond the double range */
-#ifdef GV_EXCL_BIG_LITERAL   /* exclusion predicate of the findings "accepted literal does not fit int" */
-  __CPROVER_assume(mag <= 2147483647.0);
-#endif
   /* a negative literal contains a '-': the witness position is the harness-chosen ghost index gv_k0 */
   __CPROVER_assume(!neg || (0 <= gv_k0 && gv_k0 < s->len && s->buf[gv_k0] == '-'));
   gv_rec_arg = s;
@@ -37,7 +34,18 @@ static inline bool gv_recognise(const struct gv_str *s)
   return acc;
 }
 #define gv_IsFloat(s) gv_recognise(s)
-#define gv_IsInteger(s) gv_recognise(s)
+/* an integer literal denotes an integral value (doubles >= 2^52 are all integral) */
+#define GV_INTEGRAL(x) ((x) >= 4503599627370496.0 || (x) == (double)(long long)(x))
+static inline bool gv_IsInteger(const struct gv_str *s)
+{
+  bool acc = gv_recognise(s);
+  __CPROVER_assume(GV_INTEGRAL(gv_lit_abs));
+  return acc;
+}
+#define GV_UCHAR(x) ((unsigned char)((x) & 0xFF))
+/* the accepted literal is representable in int: -2147483648 .. 2147483647 */
+#define GV_LIT_FITS_INT (gv_lit_neg ? gv_lit_abs <= 2147483648.0 : gv_lit_abs <= 2147483647.0)
+#define GV_LIT_VALUE (gv_lit_neg ? -gv_lit_abs : gv_lit_abs)
 
 static inline double gv_atof(const struct gv_str *s)
 {
@@ -49,29 +57,24 @@ static inline double gv_atof(const struct gv_str *s)
 static inline int gv_atoi(const struct gv_str *s)
 {
   __CPROVER_assert(gv_rec_arg == s && gv_rec_accept, "atoi is reached only on a string that IsInteger accepted");
-  __CPROVER_assert(gv_lit_abs <= 2147483647.0, "atoi: the accepted literal is representable in int (otherwise undefined, C11 7.22.1p1)");
+  __CPROVER_assert(GV_LIT_FITS_INT, "atoi: the accepted literal is representable in int (otherwise undefined, C11 7.22.1p1)");
   gv_conv_calls++;
   int v;
-  __CPROVER_assume(gv_lit_abs <= 2147483647.0 ? (double)v == (gv_lit_neg ? -gv_lit_abs : gv_lit_abs) || gv_lit_abs != (double)(int)gv_lit_abs : 1);
+  __CPROVER_assume(!GV_LIT_FITS_INT || (double)v == GV_LIT_VALUE);   /* assumed contract: the value of the literal */
   return v;
 }
 
 static inline int gv_isspace(int c)
 {
-  __CPROVER_assert(c >= -128 && c <= 255, "isspace argument inside the ctype table domain");
+  __CPROVER_assert(c >= -1 && c <= 255, "isspace argument inside the ctype table domain");
   return c == ' ' || (c >= 9 && c <= 13);
 }
 static inline int gv_isdigit(int c)
 {
-  __CPROVER_assert(c >= -128 && c <= 255, "isdigit argument inside the ctype table domain");
+  __CPROVER_assert(c >= -1 && c <= 255, "isdigit argument inside the ctype table domain");
   return c >= '0' && c <= '9';
 }
 #define WF_STR(s) (__CPROVER_r_ok(s, sizeof(struct gv_str)) && 0 <= (s)->len && (s)->len <= MAXLEN && __CPROVER_r_ok((s)->buf, (s)->len))
-#ifdef GV_EXCL_BIG_LITERAL
-#define GV_LIT_FITS_INT (gv_lit_abs <= 2147483647.0)
-#else
-#define GV_LIT_FITS_INT 1
-#endif
 #define GHOSTS gv_rec_arg, gv_rec_accept, gv_lit_abs, gv_lit_neg, gv_conv_calls
 //@ end
 
@@ -82,7 +85,6 @@ __CPROVER_requires(WF_STR(s) && __CPROVER_w_ok(d__p, sizeof(double)))
 __CPROVER_assigns(*d__p, GHOSTS)
 __CPROVER_ensures(gv_rec_arg == s && __CPROVER_return_value == gv_rec_accept)
 __CPROVER_ensures(gv_lit_abs >= 0 && (!gv_lit_neg || (0 <= gv_k0 && gv_k0 < s->len && s->buf[gv_k0] == '-')))   /* facts of the recogniser stub, passed on to callers that use this contract */
-__CPROVER_ensures(GV_LIT_FITS_INT)
 __CPROVER_ensures(__CPROVER_return_value ==> (*d__p == (gv_lit_neg ? -gv_lit_abs : gv_lit_abs) && gv_conv_calls == __CPROVER_old(gv_conv_calls) + 1))
 __CPROVER_ensures(!__CPROVER_return_value ==> (gv_conv_calls == __CPROVER_old(gv_conv_calls) &&
                   (*d__p == __CPROVER_old(*d__p) || __CPROVER_old(*d__p) != __CPROVER_old(*d__p))))
@@ -92,14 +94,15 @@ GV_CANARY("CoreParser_toDouble entry");
 #endif
 //@ end
 
-/* toInteger: true exactly when IsInteger accepts s; then value is the value of the literal (which therefore must
-   fit an int); otherwise value is untouched. */
+/* toInteger: true exactly when IsInteger accepts s AND the literal is representable in int; then value is the value
+   of the literal; otherwise value is untouched; no conversion function is called on a refused string. */
 //@ contract CoreParser_toInteger
 __CPROVER_requires(WF_STR(s) && __CPROVER_w_ok(value__p, sizeof(int)))
 __CPROVER_assigns(*value__p, GHOSTS)
-__CPROVER_ensures(gv_rec_arg == s && __CPROVER_return_value == gv_rec_accept)
-__CPROVER_ensures(__CPROVER_return_value ==> gv_conv_calls == __CPROVER_old(gv_conv_calls) + 1)
-__CPROVER_ensures(!__CPROVER_return_value ==> (gv_conv_calls == __CPROVER_old(gv_conv_calls) && *value__p == __CPROVER_old(*value__p)))
+__CPROVER_ensures(gv_rec_arg == s && __CPROVER_return_value == (gv_rec_accept && GV_LIT_FITS_INT))
+__CPROVER_ensures(__CPROVER_return_value ==> (double)*value__p == GV_LIT_VALUE)
+__CPROVER_ensures(!__CPROVER_return_value ==> *value__p == __CPROVER_old(*value__p))
+__CPROVER_ensures(!gv_rec_accept ==> gv_conv_calls == __CPROVER_old(gv_conv_calls))
 //@ entry CoreParser_toInteger
 GV_CANARY("CoreParser_toInteger entry");
 //@ end
